@@ -154,10 +154,12 @@ def unit_rankings_unbounded(model):
     return _merge_canaries(recs)
 
 
-def unit_order(model, sizes, form, limit, generic=False):
-    """form: relabel | scores | default;  generic: sizes = (1,)*n, teams of symbolic size (pyvc/teams.py)"""
+def unit_order(model, sizes, form, limit, generic=False, gamma_mode="default"):
+    """form: relabel | scores | default;  generic: sizes = (1,)*n, teams of symbolic size (pyvc/teams.py);
+    gamma_mode = custom: the model carries a user gamma callback, an arbitrary function of all the arguments
+    it is handed - the rank it is told included (so the rank handed over may depend on the order only)"""
     try:
-        return _unit_order(model, sizes, form, limit, generic)
+        return _unit_order(model, sizes, form, limit, generic, gamma_mode)
     except Exception as e:  # noqa: BLE001
         from ..symrt import UncutLoop
         if generic and isinstance(e, UncutLoop):
@@ -166,7 +168,7 @@ def unit_order(model, sizes, form, limit, generic=False):
         raise
 
 
-def _unit_order(model, sizes, form, limit, generic):
+def _unit_order(model, sizes, form, limit, generic, gamma_mode="default"):
     if generic:
         from .. import teams as T
         S = T.scratch(model)
@@ -176,13 +178,21 @@ def _unit_order(model, sizes, form, limit, generic):
         mk_teams = game.mk_teams
     game.stub_gauss_uninterpreted(S)
     n = len(sizes)
-    shape = (f"sizes={sizes}" if not generic else f"n={n},any-team-size") + f",limit_sigma={limit}"
+    shape = (f"sizes={sizes}" if not generic else f"n={n},any-team-size") + f",limit_sigma={limit}" + (",gamma=custom" if gamma_mode == "custom" else "")
     fn = f"{model}.rate"
     ctx = Ctx("U")
+    gkw = {}
+    if gamma_mode == "custom":
+        G = game.uf("U_gamma", 5)
+
+        def gamma(c, k, mu, sigma_squared, team, rank, /, *, _G=G):
+            from ..symrt import term, KFLOAT
+            return SymNum(_G(term(c), term(k), term(mu), term(sigma_squared), term(rank)), KFLOAT)
+        gkw["gamma"] = gamma
 
     def run(ctx):
-        mA, _ = game.mk_model(ctx, S, limit_sigma=limit)
-        mB, _ = game.mk_model(ctx, S, limit_sigma=limit)
+        mA, _ = game.mk_model(ctx, S, limit_sigma=limit, **gkw)
+        mB, _ = game.mk_model(ctx, S, limit_sigma=limit, **gkw)
         gA = mk_teams(ctx, S, sizes)
         gB = mk_teams(ctx, S, sizes)
         if form == "relabel":
@@ -213,7 +223,7 @@ def _unit_order(model, sizes, form, limit, generic):
 
         def mk(md):
             a, b = enc(md)
-            return {"kind": "c03_order", "model": model, "form": form, "limit": limit, "a": a, "b": b,
+            return {"kind": "c03_order", "model": model, "form": form, "limit": limit, "a": a, "b": b, "gamma": gamma_mode,
                     "game": game.enc_game(md, sizes), "params": game.enc_params(md)}
         nm = {"relabel": "order-only", "scores": "scores-negation", "default": "default-ranks"}[form]
         ok = game.compare_outcomes(ra, rb) if ra[0] == "return" else z3.BoolVal(False)
@@ -269,6 +279,9 @@ def units(tier):
             for form in ("relabel", "scores", "default"):
                 us.append(("unit_order", (m, (1,) * n, form, False, True)))
         us.append(("unit_order", (m, (1, 1), "relabel", True, True)))
+        for form in ("relabel", "scores", "default"):
+            us.append(("unit_order", (m, (2, 1), form, False, False, "custom")))
+        us.append(("unit_order", (m, (1, 1, 1), "relabel", False, False, "custom")))
     if tier == "quick":
         us += [("unit_order", (m, (1,) * 5, "relabel", False)) for m in extract.MODELS] + [("unit_order", (m, (1,) * 6, "default", False)) for m in extract.MODELS]
     return us
